@@ -316,6 +316,7 @@ type streamOpts struct {
 	Repeats     int   // how many times PAT/PMT are repeated
 	NearPIDs    bool  // PES PIDs that differ in one bit from each other (and 0x0fff next to null packets)
 	PESTotals   []int // first PES PID: bounded units with exactly these PES_packet_length values instead of random ones
+	TypedDescs  bool  // PMT streams carry loops of typed DVB descriptors (reference-encoded, go/harness/c14_ref.go)
 	Unbounded   bool  // with PESTotals: unbounded video PES (PES_packet_length 0) with these payload sizes instead
 	LongUnit    int   // first PES PID: its first unit is an unbounded PES spread over at least this many packets
 }
@@ -381,6 +382,11 @@ func genRefStream(r *Rng, o streamOpts) *refStreamModel {
 			pmt := &refSection{TableID: 2, Ext: pat.Programs[len(pat.Programs)-1].Number, Version: byte(r.Intn(32))}
 			for _, pid := range pesPIDs {
 				st := refStream{Type: []byte{0x1b, 0x0f, 0x03, 0x06, 0x81}[r.Intn(5)], PID: pid}
+				if o.TypedDescs {
+					st.Desc, _ = c14RefLoop(c14GenLoop(r, 4, 80), false)
+					pmt.Streams = append(pmt.Streams, st)
+					continue
+				}
 				switch r.Intn(4) {
 				case 0:
 					st.Desc = append([]byte{0x13, byte(2)}, r.Bytes(2)...) // an unknown descriptor tag
